@@ -388,7 +388,12 @@ func (p *Provider) RoundTrip(req *http.Request) (*http.Response, error) {
 		return httpResp(req, 200, io.NopCloser(bytes.NewReader(full[:cut]))), nil
 	case 5: // 200, read error mid-stream
 		full := p.wrap(texts[0].body, 0)
-		cut := t.Intn(len(full), "readerr.at")
+		// the error may also strike exactly at the end of a complete document
+		// (framing promised more): still a transport fault
+		cut := len(full) - t.Weighted("readerr.at.end", 2, 1)*(1+t.Intn(len(full), "readerr.at"))
+		if cut < 0 {
+			cut = 0
+		}
 		d.Status = 200
 		deliver("body-read-error", Bad)
 		return httpResp(req, 200, &faultyBody{data: full[:cut], err: io.ErrUnexpectedEOF}), nil
